@@ -152,30 +152,61 @@ def validate_passive(ctx, seed):
 # ================================================================================================ passive forces: units
 
 
+def _at(a, idx):
+  """tolerant read: arrays the solver's thread never reads may be empty in the model"""
+  try:
+    return a[tuple(int(i) for i in idx)]
+  except IndexError:
+    return np.zeros(a.shape[len(idx) :], dtype=a.dtype)
+
+
 def _b(pre, lab, w, *idx):
   a = pre[lab]
-  return a[(w % a.shape[0],) + tuple(idx)]
+  return _at(a, (w % max(a.shape[0], 1),) + tuple(idx))
+
+
+def _subquat(qa, qb):
+  import mujoco
+
+  r = np.zeros(3)
+  n = np.linalg.norm(qa)
+  mujoco.mju_subQuat(r, np.asarray(qa, dtype=float) / (n if n > 0 else 1.0), np.asarray(qb, dtype=float))
+  return r
 
 
 def goal_dof_passive(spec, pre, post):
   S, D = bits()
   w, j = spec["tid"][:2]
-  jt, qa, da = int(pre["jnt_type"][j]), int(pre["jnt_qposadr"][j]), int(pre["jnt_dofadr"][j])
+  jt = int(spec["env"]["jt"])
+  qa, da = int(_at(pre["jnt_qposadr"], (j,))), int(_at(pre["jnt_dofadr"], (j,)))
   flags = int(spec["args"]["opt_disableflags"]["scalar"])
   k, sp = float(_b(pre, "jnt_stiffness", w, j)), [float(x) for x in _b(pre, "jnt_stiffnesspoly", w, j)]
   nd = {0: 6, 1: 3}.get(jt, 1)
   msgs = []
+  qv = lambda i: float(_at(pre["qvel_in"], (w, i)))
+  qp = lambda i: float(_at(pre["qpos_in"], (w, i)))
+  qs = lambda i: float(_b(pre, "qpos_spring", w, i))
   for i in range(nd):
-    v = float(pre["qvel_in"][w, da + i])
-    want = 0.0 if (flags & D) else float(ref_damper(float(_b(pre, "dof_damping", w, da)), [float(x) for x in _b(pre, "dof_dampingpoly", w, da)], v))
-    got = float(post["qfrc_damper_out"][w, da + i])
+    want = 0.0 if (flags & D) else float(ref_damper(float(_b(pre, "dof_damping", w, da)), [float(x) for x in _b(pre, "dof_dampingpoly", w, da)], qv(da + i)))
+    got = float(_at(post["qfrc_damper_out"], (w, da + i)))
     if not lib.approx(got, want):
       msgs.append(f"qfrc_damper[{da + i}] = {got} expected {want}")
-  if jt in (2, 3):
-    want = 0.0 if (flags & S) else float(ref_spring_1d(k, sp, float(pre["qpos_in"][w, qa]), float(_b(pre, "qpos_spring", w, qa))))
-    got = float(post["qfrc_spring_out"][w, da])
-    if not lib.approx(got, want):
-      msgs.append(f"qfrc_spring[{da}] = {got} expected {want}")
+  want = np.zeros(nd)
+  if not (flags & S):
+    if jt in (2, 3):
+      want[0] = float(ref_spring_1d(k, sp, qp(qa), qs(qa)))
+    else:
+      off = 0
+      if jt == 0:
+        dif = np.array([qp(qa + i) - qs(qa + i) for i in range(3)])
+        want[:3] = -float(poly_force(k, sp, float(np.linalg.norm(dif)), False)) * dif
+        off = 3
+      dif = _subquat([qp(qa + off + i) for i in range(4)], [qs(qa + off + i) for i in range(4)])
+      want[off : off + 3] = -float(poly_force(k, sp, float(np.linalg.norm(dif)), False)) * dif
+  for i in range(nd):
+    got = float(_at(post["qfrc_spring_out"], (w, da + i)))
+    if not lib.approx(got, float(want[i])):
+      msgs.append(f"qfrc_spring[{da + i}] = {got} expected {float(want[i])}")
   return (not msgs), f"joint {j} type {jt} flags {flags}: " + ("; ".join(msgs) or "agrees")
 
 
@@ -210,12 +241,14 @@ def unit_dof_passive(jt, sp_off, dm_off):
     kst, sp = vb("jnt_stiffness", j), vbv("jnt_stiffnesspoly", j)
     dmp, dp = vb("dof_damping", da), vbv("dof_dampingpoly", da)
     spring_off, damper_off = bool(sp_off), bool(dm_off)
-    bg = list(kt.bg)
+    tag = f"spring{'off' if sp_off else 'on'}-damper{'off' if dm_off else 'on'}"
+    # per-world batched Model fields have at least one row (mjModel invariant; also keeps `worldid % shape[0]` defined in replays)
+    bg = list(kt.bg) + [kt.cell(lab).shape[0] >= 1 for lab in ("qpos_spring", "jnt_stiffness", "jnt_stiffnesspoly", "dof_damping", "dof_dampingpoly")]
     nd = {0: 6, 1: 3}.get(jt, 1)
     qs = []
     names = {"w": w, "j": j, "qposadr": qa, "dofadr": da}
     loc = "mujoco_warp._src.passive:_spring_damper_dof_passive"
-    rp = lib.make_replay(ctx, kt, loc, f"type{jt}.{int(sp_off)}{int(dm_off)}", "goal", goal="checks.c02:goal_dof_passive")
+    rp = lib.make_replay(ctx, kt, loc, f"type{jt}.{int(sp_off)}{int(dm_off)}", "goal", goal="checks.c02:goal_dof_passive", env={"jt": jt, "randomize_floats": 0 if exact else 3})
     q = lambda i: kt.pre("qpos_in", w, arith("+", qa, i))
     qsp = lambda i: vb("qpos_spring", arith("+", qa, i))
 
@@ -226,11 +259,11 @@ def unit_dof_passive(jt, sp_off, dm_off):
     for i in range(nd):
       v = kt.pre("qvel_in", w, arith("+", da, i))
       want = ite(damper_off, 0.0, o.a("*", arith("*", v, -1), pf(dmp, dp, v, True)))
-      qs.append(dict(name=f"damper[{i}]", goal=cmp("==", kt.post("qfrc_damper_out", w, arith("+", da, i)), want), names=names, replay=rp, desc=f"_spring_damper_dof_passive (joint type {jt}): damper force of dof {i} differs from -v (d + p0 |v| + p1 v^2) / 0 when disabled"))
+      qs.append(dict(name=f"{tag}/damper[{i}]", goal=cmp("==", kt.post("qfrc_damper_out", w, arith("+", da, i)), want), names=names, replay=rp, desc=f"_spring_damper_dof_passive (joint type {jt}): damper force of dof {i} differs from -v (d + p0 |v| + p1 v^2) / 0 when disabled"))
     if exact:
       x = arith("-", q(0), qsp(0))
       want = ite(spring_off, 0.0, arith("*", arith("*", x, -1), pf(kst, sp, x, False)))
-      qs.append(dict(name="spring[0]", goal=cmp("==", kt.post("qfrc_spring_out", w, da), want), names=names, replay=rp, desc=f"_spring_damper_dof_passive (joint type {jt}): spring force differs from -x (k + p0 x + p1 x^2), x = qpos - qpos_spring"))
+      qs.append(dict(name=f"{tag}/spring[0]", goal=cmp("==", kt.post("qfrc_spring_out", w, da), want), names=names, replay=rp, desc=f"_spring_damper_dof_passive (joint type {jt}): spring force differs from -x (k + p0 x + p1 x^2), x = qpos - qpos_spring"))
     else:
       L = sl.UFLeaves()
       fsq = lambda t: L._ip.sqrt(core.to_z3(t, "real"))
@@ -240,22 +273,22 @@ def unit_dof_passive(jt, sp_off, dm_off):
         kk = pf(kst, sp, fsq(o.dot(dif, dif)), False)
         for i in range(3):
           want = ite(spring_off, 0.0, o.a("*", arith("*", kk, -1), dif[i]))
-          qs.append(dict(name=f"spring[{i}]", goal=cmp("==", kt.post("qfrc_spring_out", w, arith("+", da, i)), want), names=names, replay=rp, desc="free joint: translational spring force differs from -k(|d|) d"))
+          qs.append(dict(name=f"{tag}/spring[{i}]", goal=cmp("==", kt.post("qfrc_spring_out", w, arith("+", da, i)), want), names=names, replay=rp, desc="free joint: translational spring force differs from -k(|d|) d"))
         off = 3
       rot = L.normalize([q(off + i) for i in range(4)])
       dif = qsub(rot, [qsp(off + i) for i in range(4)])
       kk = pf(kst, sp, fsq(o.dot(dif, dif)), False)
       for i in range(3):
         want = ite(spring_off, 0.0, o.a("*", arith("*", kk, -1), dif[i]))
-        qs.append(dict(name=f"spring[{off + i}]", goal=cmp("==", kt.post("qfrc_spring_out", w, arith("+", da, off + i)), want), names=names, replay=rp, desc="free / ball joint: rotational spring force differs from -k(|d|) d, d = quat_sub(normalize(q), q_spring)"))
+        qs.append(dict(name=f"{tag}/spring[{off + i}]", goal=cmp("==", kt.post("qfrc_spring_out", w, arith("+", da, off + i)), want), names=names, replay=rp, desc="free / ball joint: rotational spring force differs from -k(|d|) d, d = quat_sub(normalize(q), q_spring)"))
       bg = bg + [core.zbool(a) for a in L.assumes]
     if exact:
-      ctx.reach(ctx.session(bg), "twin:thread", True)
+      ctx.reach(ctx.session(bg), f"twin:thread/{tag}", True)
       sess = sl.oneshot(ctx, bg)
       for qq in qs:
         ctx.prove(sess, qq["name"], qq["goal"], names=qq["names"], replay=qq["replay"], desc=qq["desc"])
     else:
-      sl.run_queries(ctx, bg, qs, twin="twin:thread")
+      sl.run_queries(ctx, bg, qs, twin=f"twin:thread/{tag}")
 
   return (f"passive/dof/type{jt}/spring{'off' if sp_off else 'on'}-damper{'off' if dm_off else 'on'}", run)
 
@@ -353,7 +386,7 @@ def goal_passive_sum(spec, pre, post):
   e = spec["env"]
   w, dof = spec["tid"][:2]
   want = float(pre["qfrc_spring_in"][w, dof]) + float(pre["qfrc_damper_in"][w, dof])
-  if e["grav"] and not int(pre["jnt_actgravcomp"][int(pre["dof_jntid"][dof])]):
+  if e["grav"] and not int(_at(pre["jnt_actgravcomp"], (int(_at(pre["dof_jntid"], (dof,))),))):
     want += float(pre["qfrc_gravcomp_in"][w, dof])
   if e["fluid"]:
     want += float(pre["qfrc_fluid_in"][w, dof])
@@ -383,7 +416,8 @@ def unit_passive_sum(ctx):
           want = arith("+", want, kt.pre("qfrc_fluid_in", w, dof))
         if adh:
           want = arith("+", want, kt.pre("qfrc_adhesion_in", w, dof))
-        sess = ctx.session(kt.bg)
+        wf = [core.zbool(kt.inshape("dof_jntid", dof)), core.zbool(kt.inshape("jnt_actgravcomp", kt.pre("dof_jntid", dof)))] if grav else []
+        sess = ctx.session(kt.bg + wf)
         tag = f"fluid{int(fluid)}-adh{int(adh)}-grav{int(grav)}"
         ctx.reach(sess, f"twin:{tag}", True)
         rp = lib.make_replay(ctx, kt, f"mujoco_warp._src.passive:_qfrc_passive_kernel({fluid}, {adh}, {grav})", tag, "goal", goal="checks.c02:goal_passive_sum", env={"fluid": fluid, "adh": adh, "grav": grav})
@@ -681,7 +715,19 @@ def unit_tables(ctx):
 
 def main(tier, seed, only=None):
   units = [("leaf", unit_leaf), ("tables", unit_tables)]
-  units += [unit_dof_passive(jt, a, b) for jt in (sl.JNT_SLIDE, sl.JNT_HINGE, sl.JNT_BALL, sl.JNT_FREE) for a in (False, True) for b in (False, True)]
+  def dof_unit(jt):
+    subs = [unit_dof_passive(jt, a, b) for a in (False, True) for b in (False, True)]
+
+    def run(ctx):
+      base = ctx.unit
+      for n, f in subs:
+        ctx.notes.append(f"sub-harness {n}")
+        ctx.tag = n.split("/")[-1]
+        f(ctx)
+
+    return (f"passive/dof/type{jt}", run)
+
+  units += [dof_unit(jt) for jt in (sl.JNT_SLIDE, sl.JNT_HINGE, sl.JNT_BALL, sl.JNT_FREE)]
   units += [("passive/tendon", unit_tendon_passive), ("passive/gravcomp", unit_gravcomp), ("passive/sum", unit_passive_sum), ("smooth/qfrc_smooth", unit_qfrc_smooth)]
   tops = list(TOPOLOGIES) if tier == "thorough" else ["fork-ball-slide", "two-joints-child", "free-hinge", "welded-between"]
   for st in ("crb", "com_vel", "rne"):
